@@ -243,6 +243,49 @@ def build_ops():
         O[name] = f
     _scan("cumsum"); _scan("cumprod")
 
+    def _scan_dtype(name, method):
+        def f(r, x):
+            _known(x); _need(x.ndim >= 1 and x.dtype.kind in "iufb")
+            return getattr(da, name)(x, axis=_axis(r, x), dtype=r.choice(["f4", "i4", "i8", "f8", "u1"]), method=method)
+        f.__name__ = name + "_dtype" + ("_blelloch" if method == "blelloch" else "")
+        O[f.__name__] = f
+    for nm in ("cumsum", "cumprod", "nancumsum", "nancumprod"):
+        _scan_dtype(nm, "sequential")
+    _scan_dtype("cumsum", "blelloch")
+
+    def _red_dtype(name):
+        def f(r, x):
+            _known(x); _need(x.dtype.kind in "iufb")
+            kw = {"dtype": r.choice(["f4", "i4", "i8", "f8"])}
+            if x.ndim and r.random() < 0.8:
+                kw["axis"] = _axis(r, x)
+            if r.random() < 0.4:
+                kw["keepdims"] = True
+            if r.random() < 0.5:
+                kw["split_every"] = 2
+            return getattr(da, name)(x, **kw)
+        f.__name__ = name + "_dtype"
+        O[f.__name__] = f
+    for nm in ("sum", "prod", "mean", "nansum"):
+        _red_dtype(nm)
+
+    @op
+    def astype_any(r, x):
+        _need(x.dtype.kind in "iufb")
+        return x.astype(r.choice(["i1", "i2", "i4", "i8", "u1", "f4", "f8", "c16", "bool"]))
+    @op
+    def mixed_arith(r, x):
+        _known(x); _need(x.ndim >= 1)
+        other = _fresh(r, [int(s) for s in x.shape], r.choice(["f4", "i4", "u1", "bool", "c16", "i2"]))
+        return r.choice([lambda a, b: a + b, lambda a, b: b - a, lambda a, b: a * b, lambda a, b: da.maximum(a, b)])(x, other)
+    @op
+    def where_mixed(r, x):
+        _known(x); _need(x.ndim >= 1 and x.dtype.kind in "iufb")
+        return da.where(x > 3, x, _fresh(r, [int(s) for s in x.shape], r.choice(["f4", "i4", "u1", "c16", "i2"])))
+    @op
+    def view_same_size(r, x):
+        _need(x.dtype.itemsize == 8 and x.dtype.kind in "if" and x.ndim >= 1)
+        return x.view("f8" if x.dtype.kind == "i" else "i8")
     @op
     def topk(r, x):
         _known(x); _need(x.ndim >= 1)
@@ -523,15 +566,18 @@ def record_pipelines(ctx, n):
 
 REDUCTIONS = ("sum", "prod", "mean", "std", "var", "any", "all", "nansum", "nanmean", "max", "min", "nanmax", "argmax", "argmin",
               "median", "ptp", "average", "count_nonzero")
-SCANS = ("cumsum", "cumprod")
+SCANS = ("cumsum", "cumprod", "cumsum_dtype", "cumprod_dtype", "nancumsum_dtype", "nancumprod_dtype", "cumsum_dtype_blelloch")
 
 
 def classify(rec, clauses):
     """Signature: the operation (class) whose result is wrong, the first failing clause, and the
     structural class of its input.  Input classes behind the recorded known findings come first."""
-    clause = ([c for c in ["Raised", "Shape", "Keys", "BlockShape", "LazyShape", "Dtype", "Reassemble"] if c in clauses] or list(clauses))[0]
-    if rec["op"] == "basic_index":
-        return "meta:basic_index:%s:%s" % (clause, "+".join(rec["feats"]) or "plain")
+    clause = ([c for c in ["Raised", "Shape", "AskedDtype", "Keys", "BlockShape", "LazyShape", "Dtype", "Reassemble"] if c in clauses] or list(clauses))[0]
+    if clause == "Dtype" and ((rec["op"] == "dtype_op" and "blelloch" in rec["feats"] and "other-dtype" in rec["feats"])
+                              or rec["op"].endswith("_dtype_blelloch")):
+        return "meta:blelloch-scan:dtype-after-first-block"
+    if "case" in rec:
+        return "meta:%s:%s:%s" % (rec["op"], clause, "+".join(rec["feats"]) or "plain")
     feats = [f for f in rec["feats"] if f in ("unknown-chunks", "zero-chunk-on-unit-axis", "zero-chunk", "0d", "empty")]
     shapeish = clause in ("BlockShape", "LazyShape", "Reassemble", "Keys")
     op = rec["op"]
@@ -557,14 +603,15 @@ def validate(ctx, recs, report=True):
     found = []
     for lo in range(0, len(recs), 4000):
         part = recs[lo:lo + 4000]
-        rej = ctx.tlc_validate(spec, [{k: r[k] for k in ("id", "obs", "want") if k in r} for r in part], cfg, timeout=1800)
+        rej = ctx.tlc_validate(spec, [{k: r[k] for k in ("id", "obs", "want", "wantdt") if k in r} for r in part], cfg, timeout=1800)
         for r in part:
             ctx.count(("rec", r["op"], r.get("case"), r["obs"]["chunks"], r["obs"]["whole"]), len(r["obs"]["whole"]["c"]) > 1)
             if r["obs"]["raised"]:
                 py = ["Raised"]
             else:
-                py = trim_clauses(meta_clauses(r["obs"]) + (["Shape"] if "want" in r and r["obs"]["whole"]["s"] != r["want"] else []),
-                                  ["Shape", "Keys", "BlockShape", "LazyShape", "Dtype", "Reassemble"])
+                py = trim_clauses(meta_clauses(r["obs"]) + (["Shape"] if "want" in r and r["obs"]["whole"]["s"] != r["want"] else [])
+                                  + (["AskedDtype"] if "wantdt" in r and r["obs"]["dt"] != r["wantdt"] else []),
+                                  ["Shape", "AskedDtype", "Keys", "BlockShape", "LazyShape", "Dtype", "Reassemble"])
             tl = sorted(_clause_names(rej[r["id"]][0])) if r["id"] in rej else []
             if py != tl:
                 raise MachineryError("Python mirror %r and TLC %r disagree on the clauses of %r" % (py, tl, r))
@@ -592,32 +639,80 @@ def index_features(ix):
     return f
 
 
+DT = {"i4": "int32", "i8": "int64", "f4": "float32", "f8": "float64"}
+NONE = 99
+
+
+def case_features(case):
+    """Structural class of an enumerated case (for signatures)."""
+    if case["fam"] == "index":
+        return index_features(list(case["idx"]))
+    if case["fam"] == "slice":
+        return ["step<-1" if case["st"] < -1 else "step=-1" if case["st"] == -1 else "step>1" if case["st"] > 1 else "step=1"]
+    return [case["op"].split("/")[0], "blelloch" if case["op"].endswith("/b") else "", "same-dtype" if case["src"] == case["dst"] else "other-dtype"]
+
+
+def _apply_case(case, lib, x):
+    """The operation of an enumerated case on x (dask array, or ndarray with lib=numpy)."""
+    if case["fam"] == "index":
+        return x[tuple(IDX[c] for c in case["idx"])]
+    if case["fam"] == "slice":
+        f = lambda v: None if v == NONE else v
+        return x[slice(f(case["a"]), f(case["b"]), case["st"])]
+    name, _, method = case["op"].partition("/")
+    if name == "astype":
+        return x.astype(case["dst"])
+    kw = {"dtype": case["dst"]}
+    if method:
+        kw["axis"] = 0
+        if lib is not np:
+            kw["method"] = {"s": "sequential", "b": "blelloch"}[method]
+    return getattr(lib, name)(x, **kw)
+
+
 def _index_record(item):
-    """x[index] for one TLC-enumerated basic index: the observation + the shape the spec demands."""
+    """One TLC-enumerated case (basic index / 1-d slice / operation with explicit dtype): the
+    observation + the shape (and dtype) the specification demands."""
     import dask.array as da
     n, case, want = item
-    idx = tuple(IDX[c] for c in case["idx"])
-    ref = list(np.empty(tuple(case["shape"]), dtype="i1")[idx].shape)
-    if ref != list(want):
-        return {"guard": "spec shape %r, NumPy %r for %r" % (want, ref, case)}
     size = int(np.prod(case["shape"]))
-    x = da.from_array(np.arange(size, dtype="i8").reshape(tuple(case["shape"])), chunks=py_chunks(case["chunks"]))
+    src = np.arange(size, dtype=case.get("src", "i8")).reshape(tuple(case["shape"]))
+    ref = np.asarray(_apply_case(case, np, src))
+    if list(ref.shape) != list(want["shape"]) or ("dt" in want and str(ref.dtype) != DT[want["dt"]]):
+        return {"guard": "spec demands %r, NumPy gives shape %r dtype %s for %r" % (want, ref.shape, ref.dtype, case)}
+    x = da.from_array(src, chunks=py_chunks(case["chunks"]))
     try:
         with warnings.catch_warnings():
             warnings.simplefilter("ignore")
-            obs, _full = observe_full(x[idx])
-    except Exception as ex:  # noqa: BLE001 - NumPy accepts every index of this family: raising is a violation
+            obs, _full = observe_full(_apply_case(case, da, x))
+    except Exception as ex:  # noqa: BLE001 - NumPy accepts every case of these families: raising is a violation
         from ..arrayobs import raised_obs
         obs = raised_obs(ex)
-    return {"id": "i%d" % n, "op": "basic_index", "feats": index_features(list(case["idx"])), "case": case, "obs": obs, "want": list(want)}
+    rec = {"id": "%s%d" % (case["fam"][0], n), "op": {"index": "basic_index", "slice": "slice1d", "dtype": "dtype_op"}[case["fam"]],
+           "feats": [f for f in case_features(case) if f], "case": case, "obs": obs, "want": list(want["shape"])}
+    if "dt" in want:
+        rec["wantdt"] = DT[want["dt"]]
+    return rec
 
 
-def enumerated_cases(ctx, shapes, idxshapes, maxlen, cap=None):
+def observe_cases(ix, fams=("index", "slice", "dtype"), prefix=""):
+    """Apply the enumerated cases of the families `fams` to dask and observe the results."""
+    recs = pmap(_index_record, [(n, c["c"], c["e"]) for n, c in enumerate(ix) if c["c"]["fam"] in fams])
+    for r in recs:
+        if "guard" in r:
+            raise MachineryError("TLA+ reference disagrees with NumPy: " + r["guard"])
+        r["id"] = prefix + r["id"]
+    return recs
+
+
+def enumerated_cases(ctx, shapes, idxshapes, maxlen, cap=None, slices="{}", dtypes="{}", observe=True):
     """Design check + spec -> code: (i) from_array on every chunking binds the observation function
-    to the specification; (ii) records of x[index] for the exhaustive basic-index family."""
+    to the specification; (ii) records of the exhaustive families: basic indices, 1-d slices with
+    steps +-1..+-3 on all chunkings, operations with an explicit dtype.  cap: per-family sample size."""
     import dask.array as da
-    spec, cfg = ctx.model(ctx.spec("array", "ArrayMetaMC.tla"), {"Shapes": TLA(shapes), "IdxShapes": TLA(idxshapes), "MaxLen": maxlen},
-                          invariants=["GoodHolds", "CorruptionsCaught", "IndexRank"])
+    spec, cfg = ctx.model(ctx.spec("array", "ArrayMetaMC.tla"),
+                          {"Shapes": TLA(shapes), "IdxShapes": TLA(idxshapes), "MaxLen": maxlen, "SliceExtents": TLA(slices),
+                           "DtypeExtents": TLA(dtypes)}, invariants=["GoodHolds", "CorruptionsCaught", "IndexRank"])
     cases, _ = ctx.tlc_cases(spec, cfg, label="design+cases")
     fa = [c for c in cases if c["c"]["fam"] == "from_array"]
     for c in fa:
@@ -629,24 +724,30 @@ def enumerated_cases(ctx, shapes, idxshapes, maxlen, cap=None):
         norm = lambda o: dict(o, blocks=sorted(o["blocks"], key=lambda b: b["i"]))
         if norm(obs) != norm(exp):
             ctx.violation("meta:from_array", "the observation of from_array differs from the specification's", {"case": case, "expected": exp, "observed": obs})
-    ix = [c for c in cases if c["c"]["fam"] == "index"]
-    ctx.extra["basic_index_cases_enumerated"] = len(ix)
-    if cap and len(ix) > cap:
-        ix = ctx.rng.sample(ix, cap)
-    recs = pmap(_index_record, [(n, c["c"], c["e"]["shape"]) for n, c in enumerate(ix)])
-    for r in recs:
-        if "guard" in r:
-            raise MachineryError("TLA+ reference disagrees with NumPy: " + r["guard"])
+    ix = []
+    for fam in ("index", "slice", "dtype"):
+        part = [c for c in cases if c["c"]["fam"] == fam]
+        ctx.extra.setdefault("cases_enumerated", {})[fam] = len(part)
+        if cap and len(part) > cap[fam]:
+            part = ctx.rng.sample(part, cap[fam])
+        ix += part
+    if not observe:
+        return fa, ix
+    recs = observe_cases(ix)
     return fa, recs
 
 
 def run(ctx):
     shapes = ctx.pick("{<<>>, <<0>>, <<4>>, <<2, 3>>, <<2, 2, 2>>}", "{<<>>, <<0>>, <<3>>, <<5>>, <<6>>, <<2, 3>>, <<3, 3>>, <<4, 3>>, <<2, 2, 2>>, <<3, 2, 2>>}")
     cases, irecs = enumerated_cases(ctx, shapes, ctx.pick("{<<3>>, <<2, 3>>}", "{<<3>>, <<2, 3>>, <<2, 2, 2>>}"), ctx.pick(4, 5),
-                                    cap=ctx.pick(1500, None))
+                                    cap=ctx.pick({"index": 1200, "slice": 1500, "dtype": 700}, None),
+                                    slices=ctx.pick("{4, 7}", "{0, 1, 2, 3, 4, 5, 6, 7, 8}"), dtypes=ctx.pick("{4}", "{1, 3, 4, 5}"))
     ctx.sample({"from_array_case": cases[0]["c"]})
     if irecs:
-        ctx.sample({"basic_index_case": irecs[0]["case"], "expected_shape": irecs[0]["want"]})
+        for fam in ("index", "slice", "dtype"):
+            one = next((r for r in irecs if r["case"]["fam"] == fam), None)
+            if one:
+                ctx.sample({"enumerated_case": one["case"], "expected_shape": one["want"]})
     recs, skips = record_pipelines(ctx, ctx.pick(350, 5000))
     for s in skips:
         ctx.skip(s)
@@ -670,9 +771,12 @@ def replay(ctx, obj):
         return True
     r = c["record"]
     if r["op"] == "basic_index":
-        again = _index_record((0, r["case"], r["want"]))
+        want = {"shape": r["want"]}
+        if "wantdt" in r:
+            want["dt"] = {v: k for k, v in DT.items()}[r["wantdt"]]
+        again = _index_record((0, r["case"], want))
         spec, cfg = ctx.model(ctx.spec("array", "ArrayMetaTrace.tla"), {})
-        rej = ctx.tlc_validate(spec, [{k: again[k] for k in ("id", "obs", "want")}], cfg)
+        rej = ctx.tlc_validate(spec, [{k: again[k] for k in ("id", "obs", "want", "wantdt") if k in again}], cfg)
         print("index:", r["case"], "want shape", r["want"], "\nobservation:", again["obs"], "\nrejected:", rej)
         return bool(rej)
     recs, _skips = _pipeline(tuple(r["pipe"]))            # re-execute the whole pipeline from its seed
@@ -712,21 +816,12 @@ def selftest(ctx):
 
     from ..arrayobs import source_mutant
     ok = True
+    import dask.array.reductions as reductions
     import dask.array.slicing as slicing
-    cases, irecs = enumerated_cases(ctx, "{<<3>>, <<2, 2>>}", "{<<1, 2>>}", 3)
-    ibase = validate(ctx, irecs, report=False)
-    print("selftest C25: design check + from_array binding on %d chunkings, %d basic indices (%d rejected)  %s"
-          % (len(cases), len(irecs), len(ibase), "ok" if not ctx.violations and not ibase else "FAIL"))
-    ok &= not ctx.violations and not ibase
-    with source_mutant(slicing, "slice_with_newaxes", "            where_none[i] -= n\n", "            where_none[i] -= 1\n"):
-        _c, mrecs = enumerated_cases(ctx, "{<<3>>}", "{<<1, 2>>}", 3)
-        found = validate(ctx, mrecs, report=False)
-    feats = sorted({f for r, _cl in found for f in r["feats"]})
-    print("selftest C25 mutant [slice_with_newaxes: a new axis is moved left by one, not by the number of integer indices before it]: "
-          "%d of %d basic indices rejected (%s)  %s" % (len(found), len(mrecs), ",".join(feats), "detected" if found else "NOT DETECTED"))
-    ok &= bool(found)
+    cases, ix = enumerated_cases(ctx, "{<<3>>, <<2, 2>>}", "{<<1, 2>>}", 3, slices="{3}", dtypes="{3}", observe=False)
+    ok &= not ctx.violations
 
-    def pipelines(only, n=60):
+    def pipelines(only, prefix, n=60):
         """Short pipelines that end in one of the operations `only`."""
         O = ops()
         saved = dict(O)
@@ -740,17 +835,44 @@ def selftest(ctx):
         finally:
             O.clear()
             O.update(saved)
-        return [r for r in recs if r["op"] in only]
+        return [dict(r, id=prefix + r["id"]) for r in recs if r["op"] in only]
 
-    for name, module, fn, old, new, also, reach in _mutants():
-        base = [f for f in validate(ctx, pipelines(reach), report=False) if classify(*f) not in ctx.known]
+    enum_mutants = [
+        ("slice_with_newaxes: a new axis is moved left by one, not by the number of integer indices before it", slicing,
+         "slice_with_newaxes", "            where_none[i] -= n\n", "            where_none[i] -= 1\n", (), ("index",)),
+        ("new_blockdim: pieces of a negative-step slice listed back to front only for steps below -1", slicing, "new_blockdim",
+         "index.step and index.step < 0:", "index.step and index.step < -1:", (), ("slice",)),
+        ("cumreduction: the per-block scan ignores the requested dtype", reductions, "cumreduction",
+         "m = x.map_blocks(partial(func, dtype=dtype), axis=axis, dtype=dtype)", "m = x.map_blocks(func, axis=axis, dtype=dtype)",
+         (), ("dtype",)),
+    ]
+    # every observation (unchanged tree and each mutant) is taken first; one TLC run decides them all
+    batches = {"base": observe_cases(ix, prefix="B.")}
+    for n, (name, module, fn, old, new, also, fams) in enumerate(enum_mutants):
         with source_mutant(module, fn, old, new, also=also):
-            found = [f for f in validate(ctx, pipelines(reach), report=False) if classify(*f) not in ctx.known]
-        clauses = sorted({c for _r, cl in found for c in cl})
-        good = bool(found) and not base
-        print("selftest C25 mutant [%s]: unchanged %d, mutated %d rejected steps (%s)  %s"
-              % (name, len(base), len(found), ",".join(clauses), "detected" if good else "NOT DETECTED"))
-        ok &= good
+            batches["E%d" % n] = observe_cases(ix, fams, prefix="E%d." % n)
+    pipe_mutants = _mutants()
+    for n, (name, module, fn, old, new, also, reach) in enumerate(pipe_mutants):
+        batches["pb%d" % n] = pipelines(reach, "pb%d." % n)
+        with source_mutant(module, fn, old, new, also=also):
+            batches["P%d" % n] = pipelines(reach, "P%d." % n)
+    found = [f for f in validate(ctx, [r for b in batches.values() for r in b], report=False) if classify(*f) not in ctx.known]
+    hits = lambda key: [f for f in found if f[0]["id"].startswith(key + ".")]
+    nb = len(hits("B"))
+    print("selftest C25: design check + from_array binding on %d chunkings; %d enumerated index/slice/dtype cases, %d rejected on "
+          "the unchanged tree outside the known findings  %s" % (len(cases), len(batches["base"]), nb, "ok" if ok and not nb else "FAIL"))
+    ok &= not nb
+    for n, (name, *_rest) in enumerate(enum_mutants):
+        h = hits("E%d" % n)
+        print("selftest C25 mutant [%s]: %d of %d enumerated cases rejected (%s)  %s"
+              % (name, len(h), len(batches["E%d" % n]), ",".join(sorted({c for _r, cl in h for c in cl})), "detected" if h else "NOT DETECTED"))
+        ok &= bool(h)
+    for n, (name, *_rest) in enumerate(pipe_mutants):
+        h, hb = hits("P%d" % n), hits("pb%d" % n)
+        print("selftest C25 mutant [%s]: unchanged %d, mutated %d of %d rejected steps (%s)  %s"
+              % (name, len(hb), len(h), len(batches["P%d" % n]), ",".join(sorted({c for _r, cl in h for c in cl})),
+                 "detected" if h and not hb else "NOT DETECTED"))
+        ok &= bool(h) and not hb
     recs, _ = record_pipelines(ctx, 15)
     good = [r for r in recs if not meta_clauses(r["obs"]) and len(r["obs"]["blocks"]) > 1 and len(r["obs"]["whole"]["c"]) > 1]
     corrupt = []
